@@ -31,7 +31,8 @@ from .. import tlc
 MODULE = "refsig/ZadoffChu.tla"
 JVM_ENV = {"JAVA_TOOL_OPTIONS": "-XX:ParallelGCThreads=1 -XX:CICompilerCount=2"}   # small runs: keep the JVM lean
 DEVS = ["PrimeTableEndsAt1009", "ZeroPadExtension", "NSquaredPhase", "ShiftDenominator8",
-        "TapWindowOffByOne", "LsGramNotConjugated"]
+        "TapWindowOffByOne", "LsGramNotConjugated",
+        "UserCreationAliasesRoot", "WindowCachedOnEstimator"]          # the last two: RefSession.tla
 INVARIANTS = ["PrimeIsLargest", "ConstantAmplitude", "ZeroAutocorrelation", "FlatSpectrum", "CyclicExtension",
               "RootIsExtendedZc", "UeIsShiftedRoot", "ShiftOrthogonality", "LsExact", "ScenarioOk", "EstimateExact"]
 ACTIONS = ["PrimeCase", "ZcCase", "ExtCase", "RootCase", "UeCase", "ShiftCase", "LsCase", "EstCase"]
@@ -315,21 +316,23 @@ def freq_response(taps, nrx, nsc):
     return H
 
 
-def do_est(c):
+def estimate(sc, est_taps, root, tgt=None, estimator=None):
+    """One estimate call for scenario `sc` (rel).  The noise-free observation is built from first principles
+    (DFT of every user's taps, comb, sequences of real user objects made from the RootSequence object `root`);
+    `tgt` / `estimator`: existing (shared) objects to use instead of fresh ones.
+    Returns (estimate, DFT of the impulse response TLC computed, true frequency response of the target)."""
     from pyphysim.reference_signals.channel_estimation import (CazacBasedChannelEstimator,
                                                                CazacBasedWithOCCChannelEstimator)
-    RootSequence = _rs()
-    sc = c["sc"]
     fam, L, nrx, mult, K = sc["fam"], sc["size"], sc["nrx"], sc["mult"], sc["keep"]
     nsc = mult * L
-    root = RootSequence(root_index=sc["u"], size=L)
     sfam = "srs" if fam == "srs" else "dmrs"
     comb = np.arange(0, nsc, mult)
 
     def taps_of(user):
         return [(t["d"], [complex(x[0], x[1]) for x in t["v"]]) for t in user["taps"]]
 
-    tgt = ue_seq(sfam, root, sc["ct"], sc["cover"], sc["normalize"])
+    if tgt is None:
+        tgt = ue_seq(sfam, root, sc["ct"], sc["cover"], sc["normalize"])
     users = [(tgt, taps_of(sc))] + [(ue_seq(sfam, root, o["cs"], o["cover"], sc["normalize"]), taps_of(o))
                                      for o in sc["others"]]
     occ = fam == "occ"
@@ -341,31 +344,39 @@ def do_est(c):
     if nrx == 1:
         Y = Y[0]
     if occ:
-        est = CazacBasedWithOCCChannelEstimator(tgt)
+        est = estimator if estimator is not None else CazacBasedWithOCCChannelEstimator(tgt)
         if sc["extradim"]:
             got = est.estimate_channel_freq_domain(Y, K, extra_dimension=True)
         else:
             flat = np.ascontiguousarray(Y.reshape(Y.shape[:-2] + (2 * L,)))
             got = est.estimate_channel_freq_domain(flat, K, extra_dimension=False)
     else:
-        ref = tgt.seq_array() if sc["asarray"] else tgt
-        est = CazacBasedChannelEstimator(ref, size_multiplier=mult)
+        if estimator is not None:
+            est = estimator
+        else:
+            est = CazacBasedChannelEstimator(tgt.seq_array() if sc["asarray"] else tgt, size_multiplier=mult)
         got = est.estimate_channel_freq_domain(Y, K)
     # expected: DFT of the impulse response TLC computed for the kept window (= the target's taps)
     want = np.zeros((nrx, nsc), dtype=complex)
     k = np.arange(nsc)
     for a in range(nrx):
-        for p, v in c["est"][a]:
+        for p, v in est_taps[a]:
             want[a] += complex(v[0], v[1]) * np.exp(-2j * np.pi * k * p / nsc)
     truth = freq_response(taps_of(sc), nrx, nsc)
     if nrx == 1:
         want, truth = want[0], truth[0]
+    return got, want, truth
+
+
+def do_est(c):
+    sc = c["sc"]
+    root = _rs()(root_index=sc["u"], size=sc["size"])
+    got, want, truth = estimate(sc, c["est"], root)
     scale = max(1.0, float(np.max(np.abs(truth))))
-    d = maxdiff(got, want)
-    d2 = maxdiff(got, truth)
-    if d > TOL_REL * scale or d2 > TOL_REL * scale:
-        return "viol", (f"{fam} estimator (size {L}, comb x{mult}, {nrx} rx, keep {K}, shift {sc['ct']}, "
-                        f"{len(sc['others'])} other users, normalize {sc['normalize']}) misses the frequency response by {max(d, d2):.3g}")
+    d = max(maxdiff(got, want), maxdiff(got, truth))
+    if d > TOL_REL * scale:
+        return "viol", (f"{sc['fam']} estimator (size {sc['size']}, comb x{sc['mult']}, {sc['nrx']} rx, keep {sc['keep']}, shift {sc['ct']}, "
+                        f"{len(sc['others'])} other users, normalize {sc['normalize']}) misses the frequency response by {d:.3g}")
     return "ok", ""
 
 
@@ -433,10 +444,20 @@ def run(ctx):
 
     # concurrent TLC processes: VERIF_PROCS when set (shared machine), else one per core up to 16
     nthreads = int(os.environ.get("VERIF_PROCS", "0") or 0) or min(16, os.cpu_count() or 4)
+    from . import c18_session
+    sess = c18_session.plan(ctx.tier, ctx.seed)
+
+    def sess_job(row):
+        cfg, defs = c18_session.sess_model(row[1], row[2], row[3], row[4], row[5], seed=ctx.seed)
+        return tlc.run(c18_session.MODULE, cfg, defs=defs, coverage=True, env=JVM_ENV, heap="1500m")
+
     with ThreadPoolExecutor(nthreads) as ex:
-        dev_f = [ex.submit(run_dev, d, ctx.seed) for d in DEVS]
+        dev_f = [ex.submit(run_dev, d, ctx.seed) for d in DEV_RUNS]
+        dev_f += [ex.submit(c18_session.run_dev, d, ctx.seed) for d in c18_session.DEV_RUNS]
+        sess_f = [ex.submit(sess_job, row) for row in sess]
         runs = list(ex.map(tlc_job, jobs))
         devs = [f.result() for f in dev_f]
+        sess_runs = [f.result() for f in sess_f]
     for d, r in devs:
         ctx.notes.setdefault("deviations_refuted_by_model", {})[d] = r.violated
     cases = []
@@ -479,6 +500,10 @@ def run(ctx):
     # the prime-selection and (N <= bound, all roots, all lags) families are complete enumerations;
     # sequences at large sizes, least squares and the estimator scenarios are seeded samples
     ctx.exhaustive = False
+    # histories on shared objects (RefSession.tla)
+    npaths = sum(c18_session.explore(ctx, row, r) for row, r in zip(sess, sess_runs))
+    ctx.require_actions(["CreateUser", "CreateEst", "Estimate", "CatUe", "CatEst"])
+    ctx.notes["session_paths_replayed"] = npaths
     from . import c18_trace
     c18_trace.run(ctx)
     ctx.notes["exhaustive_parts"] = ["prime selection for every size 12, 24, 25..1200",
@@ -491,6 +516,9 @@ def replay(ctx, data):
     if c.get("kind") == "trace":
         from . import c18_trace
         return c18_trace.replay(ctx, c)
+    if c.get("kind") == "session":
+        from . import c18_session
+        return c18_session.replay(ctx, c)
     verdict, what = execute(c)
     if verdict == "ok":
         ctx.ok(case_key(c))
